@@ -1678,7 +1678,7 @@ fn mk_dgram(src: VId, inc: u16, dst: VId, m: foca::Message<VId>) -> Vec<u8> {
 pub fn c12(seed: u64, budget: u64) -> FOut {
     use foca::Message as Mg;
     let mut out = FOut::default();
-    out.rule = "real instance A with n = 2..6 members and fan-out 1..3: one probe round is driven by its own timers; an Ack or ForwardedAck is injected from {target, asked helper, unasked member, unknown} x probe number {previous, current, next} x arrival {before the indirect stage, after it, after the next round started} (exhaustive per layout, random layouts/seeds); expected: the next round raises no suspicion iff the evidence is genuine (Ack: target+current+in time; ForwardedAck: asked helper+current+after the indirect stage+in time), otherwise the target becomes Suspect and exactly one suspicion timeout is scheduled; PingReq only when no valid Ack came before probe_rtt, to <= num_indirect_probes distinct active members other than the target; then a full four-instance relay chain A->C->B->C->A must preserve origin/target/number and complete the probe. distinct = table rows".into();
+    out.rule = "real instance A with n = 2..6 members (a quarter of them already Suspect through gossip) and fan-out 1..3, in half of the layouts with a packet size too small for a full Feed and an Announce from a non-target member answered in the middle of the round: one probe round is driven by its own timers; an Ack or ForwardedAck is injected from {target, asked helper, unasked member, unknown} x probe number {previous, current, next} x arrival {before the indirect stage, after it, after the next round started} (exhaustive per layout, random layouts/seeds); expected: the next round raises no suspicion iff the evidence is genuine (Ack: target+current+in time; ForwardedAck: asked helper+current+after the indirect stage+in time), otherwise the target becomes Suspect and exactly one suspicion timeout is scheduled; PingReq only when no valid Ack came before probe_rtt, to <= num_indirect_probes distinct active members other than the target; then a full four-instance relay chain A->C->B->C->A must preserve origin/target/number and complete the probe. distinct = table rows".into();
     let mut g = G::new(seed ^ 0xC12);
     for run in 0..budget {
         let n = 2 + g.below(5) as u16;
@@ -1686,7 +1686,15 @@ pub fn c12(seed: u64, budget: u64) -> FOut {
         let a_id = VId::new(50, 1, 0, 0);
         let mut cfg = big_cfg();
         cfg.num_indirect_probes = fan;
-        let members: Vec<MMember> = (1..=n).map(|i| MMember { id: VId::new(i, 0, 0, 0), inc: g.below(3) as u16, state: 0 }).collect();
+        // half of the layouts: unrelated traffic during the round - A answers an Announce from a
+        // member other than the target with a Feed that does not fit the (small) packet size,
+        // gossips and broadcasts; none of it is evidence about the target
+        let noise = g.below(2) == 0;
+        if noise {
+            cfg.max_packet_size = 36 + g.below(12) as u128;
+        }
+        // a quarter of the members are already under suspicion (learnt through gossip: no timer of A's own is pending for them)
+        let members: Vec<MMember> = (1..=n).map(|i| MMember { id: VId::new(i, 0, 0, 0), inc: g.below(3) as u16, state: (g.below(4) == 0) as u8 }).collect();
         let rseed = g.next();
         for kind_fwd in [false, true] {
             for who in 0..4u8 {
@@ -1725,6 +1733,12 @@ pub fn c12(seed: u64, budget: u64) -> FOut {
                             Some((sender, was_asked))
                         };
                         let mut injected: Option<(VId, bool)> = None;
+                        if noise {
+                            if let Some(other) = members.iter().map(|m| m.id).find(|i| *i != target) {
+                                let inc = members.iter().find(|m| m.id == other).map(|m| m.inc).unwrap_or(0);
+                                run_real(&mut a.foca, &Input::Data(mk_dgram(other, inc, a_id, Mg::Announce)));
+                            }
+                        }
                         if when == 0 {
                             injected = inject(&mut a, &asked);
                         }
@@ -1778,7 +1792,8 @@ pub fn c12(seed: u64, budget: u64) -> FOut {
                         out.runs += 1;
                         out.distinct.insert(hash_of(&(n, fan, kind_fwd, who, num, when)));
                         let row = format!("n={n} fan={fan} fwd={kind_fwd} who={who} num={num} when={when} target={target:?} asked={asked:?} result={o3:?}");
-                        if genuine && (suspected || timeouts > 0) {
+                        let was_suspect = members.iter().any(|m| m.id == target && m.state == 1);
+                        if genuine && ((suspected && !was_suspect) || timeouts > 0) {
                             out.hit("C12:suspicion-despite-evidence", J::s(row.clone()));
                         }
                         if !genuine && !(suspected && timeouts == 1) && injected.is_some() {
